@@ -255,7 +255,7 @@ func c02r2(c *an.Ctx) {
 		for hops := 0; hops < 4; hops++ {
 			hasCall := false
 			for _, i2 := range succ.Instrs {
-				if ci, isCall := i2.(ssa.CallInstruction); isCall && !isDebugLog(ci.Common()) {
+				if ci, isCall := i2.(ssa.CallInstruction); isCall && !isDebugLog(ci.Common()) && !c.P.IsCounterOp(ci) {
 					hasCall = true
 				}
 			}
@@ -623,7 +623,9 @@ func c02r6(c *an.Ctx) {
 // when fn reports an error after having taken it. The semaphore is taken either by a successful call of
 // acquireCall (its error result tested nil) or on a branch edge recognised by acquireEdge. errIdx is the
 // index of the error result.
-func semDiscipline(c *an.Ctx, fn *ssa.Function, name string, isRelease func(*ssa.CallCommon) bool, acquireCall *types.Func, acquireEdge func(*ssa.If, int) bool, errIdx int) {
+func semDiscipline(c *an.Ctx, fn *ssa.Function, name string, isRelease func(*ssa.CallCommon) bool, acquireCall *types.Func, acquireEdge func(*ssa.If, int) bool, errIdx int) map[ssa.Instruction]bool {
+	// relHeld: for every release the flow passes, whether every state passing it holds the semaphore and has not released it
+	relHeld := map[ssa.Instruction]bool{}
 	nt := nilTrack{nonNil: func(v ssa.Value, at ssa.Instruction) bool { return ctxErrAfterDone(v, at) || isTermErr(c, v) }}
 	flow := &an.Flow{Fn: fn, Init: []string{""},
 		Inline: func(call ssa.CallInstruction) *ssa.Function {
@@ -637,6 +639,11 @@ func semDiscipline(c *an.Ctx, fn *ssa.Function, name string, isRelease func(*ssa
 			switch x := in.(type) {
 			case *ssa.Call:
 				if isRelease(x.Common()) {
+					good := hasTag(st, "held") && !hasTag(st, "rel")
+					if prev, seen := relHeld[in]; seen {
+						good = good && prev
+					}
+					relHeld[in] = good
 					if hasTag(st, "rel") {
 						return []string{addTag(st, "rel2")}
 					}
@@ -674,7 +681,7 @@ func semDiscipline(c *an.Ctx, fn *ssa.Function, name string, isRelease func(*ssa
 	res := flow.Run()
 	if res.Blowup {
 		c.Undecided("semaphore discipline of " + name + ": state space too large")
-		return
+		return nil
 	}
 	nHeld := 0
 	for _, ret := range an.Returns(fn) {
@@ -703,6 +710,47 @@ func semDiscipline(c *an.Ctx, fn *ssa.Function, name string, isRelease func(*ssa
 		}
 	}
 	c.Floor("ways out of "+name+" holding the semaphore", 1, nHeld)
+	return relHeld
+}
+
+// semReleasesHeld runs the semaphore automaton over fn without recording obligations and returns, for every release
+// of the stream semaphore it passes (deferred closures and same-package helpers included), whether the semaphore is
+// held on every path reaching it: such a receive from the capacity-1 channel cannot block.
+func semReleasesHeld(c *an.Ctx, fn *ssa.Function) map[ssa.Instruction]bool {
+	a := A(c)
+	semF := a.field("drpcmanager", "Manager", "sem")
+	chanRecv := a.obj("drpcsignal", "(*Chan).Recv")
+	semGet := a.obj("drpcsignal", "(*Chan).Get")
+	isSemRecv := func(cc *ssa.CallCommon) bool {
+		return an.IsCallTo(cc, chanRecv) && recvField(cc) == semF.Origin()
+	}
+	var acq *types.Func
+	if an.ShortFunc(fn) != "(*Manager).acquireSemaphore" {
+		acq = a.obj("drpcmanager", "(*Manager).acquireSemaphore")
+	}
+	errIdx := -1
+	res := fn.Signature.Results()
+	for i := 0; i < res.Len(); i++ {
+		if isErrorType(res.At(i).Type()) {
+			errIdx = i
+		}
+	}
+	if errIdx < 0 {
+		return nil
+	}
+	silent := &an.Ctx{P: c.P, Rep: an.NewReport("-", "quick"), Rule: c.Rule}
+	return semDiscipline(silent, fn, an.ShortFunc(fn), isSemRecv, acq, func(br *ssa.If, idx int) bool {
+		sc, ok := an.SelectBranch(br, idx)
+		if !ok {
+			return false
+		}
+		stt := sc.State()
+		if stt.Dir != types.SendOnly {
+			return false
+		}
+		call, isCall := stt.Chan.(*ssa.Call)
+		return isCall && an.IsCallTo(call.Common(), semGet) && recvField(call.Common()) == semF.Origin()
+	}, errIdx)
 }
 
 func isErrorType(t types.Type) bool {
